@@ -25,6 +25,8 @@ LIBDIRS = ["", "utils", "mem", "mem/public", "structs", "structs/public", "core"
 CBMC_CHECKS = ["--bounds-check", "--pointer-check", "--pointer-overflow-check", "--signed-overflow-check",
                "--conversion-check", "--div-by-zero-check", "--undefined-shift-check"]
 
+MAX_REPLAYS = 3   # replay files per unit and run; further refuted obligations of the unit are listed inside them
+NATIVE_CACHE = {}
 TAG_RE = re.compile(r"/\*@([^*]+)\*/")
 
 
@@ -145,6 +147,8 @@ def cbmc_cmd(u, tier, binary, extra=()):
         cmd += ["--unwind", str(uw), "--unwinding-assertions"]
     for k, v in u.get("unwindset", {}).items():
         cmd += ["--unwindset", "%s:%d" % (k, v)]
+    if u.get("plain"):
+        cmd += ["--drop-unused-functions"]
     cmd += list(u.get("cbmc_extra", [])) + list(extra)
     return cmd
 
@@ -223,6 +227,10 @@ def run_unit(u, tier, keep=False, extra_defs=(), want_trace_for=None):
                   "function": loc.get("function", ""), "clause": clause, "bounded": bounded, "unit": u["name"]}
             if "trace" in pr:
                 ob["trace"] = pr["trace"]
+            if st == "FAILURE" and (".unwind." in name or "recursion" in name) :
+                # an unwinding assertion that fails means the bound is too small for this code: undecided, never a violation
+                r.status, r.reason = "undecided", "unwind-bound-too-small: %s (%s)" % (name, desc)
+                ob["status"] = "UNKNOWN"
             if st not in ("SUCCESS", "FAILURE"):
                 r.status, r.reason = "undecided", "property %s has status %s" % (name, st)
             r.obligations.append(ob)
@@ -302,8 +310,11 @@ def native_replay(u, ob, inputs, replay_dir):
         info["why_not"] = "unit has no native mode (pre-state built by is_fresh / callees replaced by contracts)"
         return info
     info["attempted"] = True
+    key = (u["src"], tuple(u.get("defines", [])), tuple(u.get("defines_native", [])))
     wd = tempfile.mkdtemp(prefix="vn_", dir=WORKROOT)
     try:
+        if key in NATIVE_CACHE:
+            return _native_run(u, ob, inputs, replay_dir, NATIVE_CACHE[key], info)
         gen_native.generate_for_unit(u, VERIF, wd)
         exe = os.path.join(wd, "native")
         defs = ["-DV_NATIVE", "-DNDEBUG", "-D_GNU_SOURCE", "-DLIBMODULE_LOG_CTX=" + u.get("logctx", "CORE"), "-std=gnu11"]
@@ -316,6 +327,15 @@ def native_replay(u, ob, inputs, replay_dir):
             info["result"] = "native build failed"
             info["output"] = (out + err)[-2000:]
             return info
+        NATIVE_CACHE[key] = (exe, info["build_cmd"])
+        return _native_run(u, ob, inputs, replay_dir, NATIVE_CACHE[key], info)
+    finally:
+        pass
+
+
+def _native_run(u, ob, inputs, replay_dir, cached, info):
+    exe, info["build_cmd"] = cached
+    if True:
         rf = os.path.join(replay_dir, re.sub(r"[^A-Za-z0-9_.-]", "_", ob_id(ob)) + ".inputs")
         with open(rf, "w") as f:
             for k, v in sorted(inputs.items()):
@@ -345,8 +365,6 @@ def native_replay(u, ob, inputs, replay_dir):
             info["confirmed"] = False
             info["result"] = "native pre-state does not satisfy the harness assumptions (counterexample relies on abstract state)"
         return info
-    finally:
-        shutil.rmtree(wd, ignore_errors=True)
 
 
 def ob_id(ob):
@@ -445,6 +463,9 @@ def _main(args, tier, seed, prop, t_start):
         if not remaining:
             continue
         # fetch traces for the genuinely failing obligations
+        remaining.sort(key=lambda o: (0 if o["tags"] else 1, o["name"]))
+        also = [ob_id(o) + " : " + o["description"][:120] for o in remaining[MAX_REPLAYS:]]
+        remaining = remaining[:MAX_REPLAYS]
         names = [ob["name"] for ob in remaining]
         r3 = None
         if u.get("trace_defines"):
@@ -469,6 +490,7 @@ def _main(args, tier, seed, prop, t_start):
                    "location": "%s:%s" % (ob["file"], ob["line"]), "verdict": "REFUTED by cbmc (counterexample found)",
                    "counterexample_inputs": inputs, "counterexample_trace_tail": trace_summary(tr),
                    "native_replay": nat, "how_to_rerun": "cd /verif && ./vcheck %s --unit %s -v" % (prop, uname),
+                   "other_obligations_refuted_in_this_unit": also,
                    "verifier_cmds": r3.cmds}
             with open(rp, "w") as f:
                 json.dump(doc, f, indent=1)
